@@ -20,6 +20,7 @@ RULE = ('adjacent pairs (c, c+1) of centi-marks for every table/event/gender/age
 ASSUMPTIONS = ['Hungarian: range restricted to marks no slower than the zero-point of the parabola (timed) / from the zero '
                'of the parabola up to the 1400-point mark (field), as the property states']
 RULE = RULE + '; Tyrving hand-timed texts also in the minute forms m:ss.t, m.ss.t, m:ss,t and from one hour up h:mm:ss.t / h.mm.ss.t / h:mm:ss.xx'
+RULE = RULE + '; every Sportshall sweep once more after - and interleaved with - verbose=True calls below, inside, at the top of and beyond the table'
 
 
 def fmt2(c):
@@ -123,6 +124,14 @@ def examine(case, ctx=None):
     lo, hi = case['lo'], case['hi']
     out = []
     sysname = case['system']
+    import contextlib, io
+    if case.get('after_verbose'):
+        ts_ = [int(t * 100) for p, t in junior.sportshall_tables()[case['event']]['thresholds']]
+        with contextlib.redirect_stdout(io.StringIO()):
+            for c_ in (lo, min(ts_), (min(ts_) + max(ts_)) // 2, max(ts_), max(ts_) + 1, hi, case['after_verbose']):
+                call(athlib.sportshall_score, case['event'], fmt2(c_), verbose=True)
+                if min(ts_) <= c_ <= max(ts_):
+                    call(athlib.sportshall_score, case['event'], centi_float(c_), True)
     ctxkey = tuple(sorted((k, str(v)) for k, v in case.items() if k not in ('lo', 'hi', 'kind')))
     rng = range(hi, lo - 1, -step) if not lower_better else range(lo, hi + 1, step)
     # iterate from the BEST mark to the WORST: points must never increase (reverse=True: from the worst to the best,
@@ -142,6 +151,12 @@ def examine(case, ctx=None):
                 call(athlib.athlon_score, case['gender'], case['event'], centi_float(c), esaa=True)
                 call(athlib.athlon_score, 'M', '800', 125.0, esaa=True)
                 call(athlib.athlon_score, case['gender'], case['event'], centi_float(c), age=50)
+            elif sysname == 'sportshall' and case.get('after_verbose'):
+                # ... nor must a call that only asked for the working to be printed (a mark beyond either end of the table)
+                with contextlib.redirect_stdout(io.StringIO()):
+                    call(athlib.sportshall_score, case['event'], fmt2(max(ts_) + 100 + n % 7), verbose=True)
+                    if n % 3 == 0:
+                        call(athlib.sportshall_score, case['event'], fmt2(max(0, min(ts_) - 100 - n % 7)), verbose=True)
         r = f(c)
         n += 1
         if r[0] == 'exc':
@@ -159,7 +174,7 @@ def examine(case, ctx=None):
             if (p > prev) if not reverse else (p < prev):
                 a, b = sorted((prevc, c))
                 out.append(V('monotone', [sysname, 'dip'] + (['with-interleaved-option-calls'] if perturb else []),
-                             dict(case, lo=a, hi=b),
+                             dict(case, lo=a, hi=b) if not case.get('after_verbose') else dict(case, focus=[a, b]),
                              {'first_mark': prevc / 100.0, 'first_points': prev, 'second_mark': c / 100.0, 'second_points': p,
                               'direction': 'worst-to-best' if reverse else 'best-to-worst'}))
             if p != prev and ctx is not None:
@@ -434,6 +449,10 @@ def shard(ctx, payload):
         far = FAR if ev in junior.SH_HIGH else 2 * hi
         ctx.violations(examine({'system': 'sportshall', 'event': ev, 'lo': hi, 'hi': far}, ctx))
         ctx.label('far-range-field-sweeps')
+        # the documented `verbose` option only prints the working: after calls with it - below, inside, at the top of and
+        # beyond the table - the same sweep finds the same order
+        ctx.violations(examine({'system': 'sportshall', 'event': ev, 'lo': lo, 'hi': hi, 'after_verbose': far, 'perturb': 1}, ctx))
+        ctx.label('sweeps-after-verbose-calls')
     elif sysname == 'bulgarian':
         _, key = payload
         t = junior.bulgarian_tables()[key]
